@@ -103,6 +103,12 @@ StreamCalls(v, LL, LLX) ==
     \cup {Call(op, <<a, b, NoneI>>, <<>>, <<>>, <<Lit(w)>>) :
             op \in {"find", "rfind"}, w \in BitsUpTo(2), a \in {NoneI, 1}, b \in {NoneI, Len(v) - 1}}
 
+\* ---- C06 / C10: token reads from the current position (used by the Ref machine, which steps with Step) -------
+TokReadCalls(v, LL, LLX) ==
+    {Call(op, <<k>>, <<nm>>, <<>>, <<>>) : op \in {"readtok", "peektok"}, nm \in {"uint", "int", "bin"}, k \in 1..2}
+    \cup {Call(op, <<NoneI>>, <<nm>>, <<>>, <<>>) : op \in {"readtok", "peektok"}, nm \in {"bool", "ue", "se", "uie", "sie", "bits", "uint"}}
+    \cup {Call(op, <<4>>, <<"hex">>, <<>>, <<>>) : op \in {"readtok", "peektok"}}
+
 \* ---- C07: searching -------------------------------------------------------
 SearchCalls(v, LL, LLX) ==
     {Call(op, <<a, b, NoneI>>, <<>>, <<>>, <<Lit(w)>>) :
@@ -137,6 +143,7 @@ FamilyCalls(fam, v, LL, LLX) ==
     [] fam = "set" -> SetCalls(v, LL, LLX)
     [] fam = "replace" -> ReplaceCalls(v, LL, LLX)
     [] fam = "stream" -> StreamCalls(v, LL, LLX)
+    [] fam = "tokread" -> TokReadCalls(v, LL, LLX)
     [] fam = "search" -> SearchCalls(v, LL, LLX)
     [] fam = "compare" -> CompareCalls(v, LL, LLX)
 
